@@ -742,32 +742,7 @@ func checkPrecompileCtx(e *Engine, r *Report) {
 	if envCtx == nil {
 		undecidedf("cpcExecutorEnv has no sdk.Context field")
 	}
-	// (a) the environment literal is built only in the dispatcher, from GetCurrentContext() of the EVM's StateDB
-	nLit := 0
-	for _, f := range funcs {
-		allInstrs(f, false, func(_ *ssa.Function, _ *ssa.BasicBlock, in ssa.Instruction) {
-			st, ok := in.(*ssa.Store)
-			if !ok || fieldVar(st.Addr) != envCtx {
-				return
-			}
-			nLit++
-			sl := backSlice(st.Val, SliceOpts{})
-			c, _ := callOf(st.Val)
-			ok2 := c != nil && isCallTo(c, CallSpec{pkgEvmVM, "CStateDB", "GetCurrentContext"})
-			if ok2 {
-				rs := backSlice(c.Call.Value, SliceOpts{})
-				ok2 = rs.Has(func(v ssa.Value) bool {
-					fv := fieldVar(v)
-					return fv != nil && fv.Name() == "StateDB" && fv.Pkg() != nil && fv.Pkg().Path() == GETH+"/core/vm"
-				})
-			}
-			r.Check(ok2, "env.ctx filled in "+fnKey(f), e.Pos(st.Pos()), "env.ctx = evm.StateDB.(CStateDB).GetCurrentContext()",
-				"the executor environment's context is not the EVM StateDB's current context (sources: "+sl.Describe()+"): precompile writes escape the frame's snapshot")
-		})
-	}
-	if nLit == 0 {
-		r.Bad("env.ctx filled", "", "no construction of the executor environment found")
-	}
+	precompileEnvFresh(e, r, funcs, envCtx)
 	// (b) discipline inside executor / contract code (receiver is not the module Keeper / servers) and package-level helpers taking an env or ctx
 	isServerish := func(n *types.Named) bool {
 		if n == nil {
@@ -1290,4 +1265,87 @@ func stateDbCtxDiscipline(e *Engine, r *Report) {
 	}
 	r.Count("current_ctx_sites", nCur)
 	r.Count("original_ctx_sites", nOrig)
+}
+
+// precompileEnvFresh (shared by C03-R3 and C10-R8 / C11): the executor environment's context is the StateDB's current context,
+// read anew for every call.
+func precompileEnvFresh(e *Engine, r *Report, funcs []*ssa.Function, envCtx *types.Var) {
+	// (a) the environment literal is built only in the dispatcher, from GetCurrentContext() of the EVM's StateDB
+	nLit := 0
+	for _, f := range funcs {
+		allInstrs(f, false, func(_ *ssa.Function, _ *ssa.BasicBlock, in ssa.Instruction) {
+			st, ok := in.(*ssa.Store)
+			if !ok || fieldVar(st.Addr) != envCtx {
+				return
+			}
+			nLit++
+			sl := backSlice(st.Val, SliceOpts{})
+			c, _ := callOf(st.Val)
+			ok2 := c != nil && isCallTo(c, CallSpec{pkgEvmVM, "CStateDB", "GetCurrentContext"})
+			if ok2 {
+				rs := backSlice(c.Call.Value, SliceOpts{})
+				ok2 = rs.Has(func(v ssa.Value) bool {
+					fv := fieldVar(v)
+					return fv != nil && fv.Name() == "StateDB" && fv.Pkg() != nil && fv.Pkg().Path() == GETH+"/core/vm"
+				})
+			}
+			r.Check(ok2, "env.ctx filled in "+fnKey(f), e.Pos(st.Pos()), "env.ctx = evm.StateDB.(CStateDB).GetCurrentContext()",
+				"the executor environment's context is not the EVM StateDB's current context (sources: "+sl.Describe()+"): precompile writes escape the frame's snapshot")
+		})
+	}
+	if nLit == 0 {
+		r.Bad("env.ctx filled", "", "no construction of the executor environment found")
+	}
+	// (a2) the environment is built afresh for every call: what the dispatcher hands to executor.Execute does not come out of
+	// memory that outlives the call (a field of the dispatcher object caching the environment or the context) — the StateDB
+	// branches a new cache context for every call frame, so a remembered context is the context of an earlier frame
+	{
+		disp := e.TryFn(pkgCpcKeeper, "customPrecompiledContractMethodExecutorImpl.Execute")
+		if disp == nil {
+			r.Undec("dispatcher › environment built per call", "", "customPrecompiledContractMethodExecutorImpl.Execute not found")
+		} else {
+			nCalls := 0
+			for _, c := range callsIn(disp, false, func(c ssa.CallInstruction) bool {
+				return c.Common().IsInvoke() && c.Common().Method.Name() == "Execute"
+			}) {
+				args := c.Common().Args
+				if len(args) == 0 || namedTypeName(args[len(args)-1].Type()) != "cpcExecutorEnv" {
+					continue
+				}
+				nCalls++
+				sl := backSlice(args[len(args)-1], SliceOpts{ThroughCallArgs: alwaysThrough, IntoCallees: privHelper(pkgCpcKeeper), Depth: 3})
+				var cached []string
+				for x := range sl.Vals {
+					fv := fieldVar(x)
+					if fv == nil {
+						continue
+					}
+					tn := namedTypeName(fv.Type())
+					if tn == "cpcExecutorEnv" || isSdkContext(fv.Type()) && !(fv == envCtx) {
+						cached = append(cached, fv.Name())
+					}
+				}
+				sort.Strings(cached)
+				fresh := sl.HasCall(CallSpec{pkgEvmVM, "CStateDB", "GetCurrentContext"})
+				r.Check(len(cached) == 0 && fresh, "dispatcher › environment built per call", e.Pos(c.Pos()), "cpcExecutorEnv{ctx: StateDB.GetCurrentContext(), …} constructed in this call", "the environment handed to the executor is (partly) read back from a field that outlives the call ("+strings.Join(dedup(cached), ", ")+"): the second call of a method within one message runs on the cache context of the first call's frame — writes of a reverted frame survive, writes of a completed frame are lost")
+			}
+			if nCalls == 0 {
+				r.Bad("dispatcher › environment built per call", e.Pos(disp.Pos()), "the dispatcher does not hand a cpcExecutorEnv to executor.Execute")
+			}
+		}
+	}
+}
+
+// cpcEnvCtxField returns the sdk.Context field of cpcExecutorEnv and the cpc keeper's source functions.
+func cpcEnvCtxField(e *Engine) (*types.Var, []*ssa.Function) {
+	envN := e.Named(pkgCpcKeeper, "cpcExecutorEnv")
+	funcs := e.SrcFuncs(func(p string) bool { return p == pkgCpcKeeper })
+	es := envN.Underlying().(*types.Struct)
+	for i := 0; i < es.NumFields(); i++ {
+		if isSdkContext(es.Field(i).Type()) {
+			return es.Field(i), funcs
+		}
+	}
+	undecidedf("cpcExecutorEnv has no sdk.Context field")
+	return nil, nil
 }
